@@ -149,6 +149,29 @@ def compare_document(path: str, model, rng, label: str) -> tuple[list[dict], dic
             viols.append(core.viol(f"imported model cannot be evaluated [{label}]", None, error=f"{type(e).__name__}: {e}"[:300]))
             break
         counters["states_compared"] = counters.get("states_compared", 0) + 1
+        if len(mstate) > 1:
+            # the same state as one row of a table whose columns are labelled, in another order than the model's: the table
+            # forms give what the single-state forms gave (which are compared with the document below)
+            import pandas as pd
+
+            cols = list(mstate)[::-1] if list(mstate)[::-1] != list(model.get_variable_names()) else list(mstate)[1:] + list(mstate)[:1]
+            frame = pd.DataFrame([[mstate[c] for c in cols]], columns=cols, index=[t])
+            try:
+                a_frame = model.get_args_time_course(frame)
+                a_tc = a_frame.iloc[0]
+                rhs_tc = model.get_right_hand_side_time_course(a_frame).iloc[0]  # (this one takes the table of all values)
+                fl_tc = model.get_fluxes_time_course(frame).iloc[0]
+                fl1 = model.get_fluxes(mstate, t)
+            except Exception as e:  # noqa: BLE001
+                viols.append(core.viol(f"imported model cannot be evaluated over a table of states [{label}]", None, error=f"{type(e).__name__}: {e}"[:300]))
+                break
+            for nm, one, tab in (("get_args", a, a_tc), ("get_right_hand_side", rhs, rhs_tc), ("get_fluxes", fl1, fl_tc)):
+                bad = [k for k in one.index if k != "time" and (k not in tab.index or not (core.close(float(tab[k]), float(one[k]), 1e-9, 1e-12) or (one[k] != one[k] and tab[k] != tab[k])))]
+                if bad:
+                    viols.append(core.viol(f"table form of {nm} differs from the single-state form on an imported model [{label}]", None, name=bad[0], single=float(one[bad[0]]),
+                                           table=float(tab[bad[0]]) if bad[0] in tab.index else None, columns=cols, model_order=list(model.get_variable_names()), state=mstate, time=t))
+                    return viols, counters
+            counters["states_compared_as_a_table_row_with_columns_in_another_order"] = counters.get("states_compared_as_a_table_row_with_columns_in_another_order", 0) + 1
         for sid in dyn:
             V = D.size_of(sid)
             exp = exp_amount[sid] if rep[sid] == "amount" else exp_amount[sid] / V
